@@ -82,6 +82,20 @@ Lemma okv_refl : forall v, okv v = true -> val_eqb v v = true.
 Proof. intros v H. apply val_eqb_refl, okv_wfv, H. Qed.
 Lemma okt_not_unm : forall o, okt o = true -> is_unm o = false.
 Proof. intros [z c|i z|k l|l|c pos kws] H; try reflexivity. discriminate. Qed.
+(* ... nor does it hold one anywhere *)
+Fixpoint okt_no_unm (o : ntree) : okt o = true -> has_unm o = false.
+Proof.
+  destruct o as [z c|i z|k l|l|c pos kws]; intros H.
+  - reflexivity.
+  - discriminate.
+  - cbn [okt has_unm] in *. induction l as [|x r IH]; [reflexivity|]. cbn [forallb existsb] in *. apply andb_true_iff in H. destruct H as [Hx Hr].
+    rewrite (okt_no_unm x Hx). cbn [orb]. apply IH. exact Hr.
+  - cbn [okt has_unm] in *. induction l as [|[k x] r IH]; [reflexivity|]. cbn [existsb]. apply andb_true_iff in H. destruct H as [Hx Hr].
+    rewrite (okt_no_unm x Hx). cbn [orb]. apply IH. exact Hr.
+  - cbn [okt has_unm] in *. apply andb_true_iff in H. destruct H as [H Hk]. apply andb_true_iff in H. destruct H as [Hp _]. apply orb_false_iff. split.
+    + clear Hk. induction pos as [|x r IH]; [reflexivity|]. cbn [forallb existsb] in *. apply andb_true_iff in Hp. destruct Hp as [Hx Hr]. rewrite (okt_no_unm x Hx). cbn [orb]. apply IH. exact Hr.
+    + clear Hp. induction kws as [|[k x] r IH]; [reflexivity|]. cbn [existsb]. apply andb_true_iff in Hk. destruct Hk as [Hx Hr]. rewrite (okt_no_unm x Hx). cbn [orb]. apply IH. exact Hr.
+Qed.
 
 (* ------------------------------------------------------------------------- a node as a whole *)
 Lemma value_assign_fix : forall F o n, okt o = true -> okv n = true -> f_fix F = true -> val_eqb (eval_r ct (value_assign ct F o n)) n = true.
@@ -202,7 +216,7 @@ Proof.
   - unfold cassign_pos in Hin. rewrite HF in Hin. destruct Hin.
   - unfold cassign_kw in Hin. destruct (alookup k fs) as [v|]; [|rewrite HF in Hin; destruct Hin].
     destruct (is_default ct c k v).
-    + destruct (is_unm t); [destruct Hin as [<-|[]]; exists k, t, (QKeep t); split; reflexivity|].
+    + destruct (has_unm t); [destruct Hin as [<-|[]]; exists k, t, (QKeep t); split; reflexivity|].
       destruct (val_eqb (eval ct t) v); [destruct (f_update F)|rewrite HF in Hin]; try destruct Hin as [<-|[]]; try destruct Hin; exists k, t, (QKeep t); split; reflexivity.
     + destruct Hin as [<-|[]]. exists k, t, (asg t v). split; reflexivity.
 Qed.
@@ -246,7 +260,7 @@ Proof.
 Qed.
 
 Lemma call_fix_eq_gen : forall asg F c pos kws fs, ct_ok -> f_fix F = true -> NoDup (map fst kws) -> map fst fs = map fst (ct c) ->
-  (forall k t, In (k, t) kws -> is_unm t = false) ->
+  (forall k t, In (k, t) kws -> has_unm t = false) ->
   (forall k t v, In (k, t) kws -> In (k, v) fs -> val_eqb (ev (asg t v)) v = true) ->
   (forall k t, In (k, t) kws -> ev (QKeep t) = eval ct t) ->
   (forall k v, In (k, v) fs -> val_eqb (ev (QGen v)) v = true) ->
@@ -284,16 +298,16 @@ Proof.
     { clear. induction pos as [|t r IH]; [reflexivity|]. cbn [map flat_map]. rewrite kwvals_app, IH, app_nil_r. cbn [cassign_el]. unfold cassign_pos. destruct (f_fix F); reflexivity. }
     rewrite E1. cbn [app]. clear -Hnk. induction kws as [|[k t] r IH]; [constructor|]. cbn [map fst] in Hnk. inversion Hnk as [|? ? Hni Hnk']; subst.
     cbn [map flat_map]. rewrite kwvals_app, map_app. apply NoDup_app_intro; [|exact (IH Hnk')|].
-    - cbn [cassign_el]. unfold cassign_kw. destruct (alookup k fs) as [v|]; [destruct (is_default ct c k v); [destruct (is_unm t); [|destruct (val_eqb (eval ct t) v); [destruct (f_update F)|destruct (f_fix F)]]|]|destruct (f_fix F)];
+    - cbn [cassign_el]. unfold cassign_kw. destruct (alookup k fs) as [v|]; [destruct (is_default ct c k v); [destruct (has_unm t); [|destruct (val_eqb (eval ct t) v); [destruct (f_update F)|destruct (f_fix F)]]|]|destruct (f_fix F)];
         cbn; repeat constructor; intros [].
     - intros x Hx Hy. assert (x = k).
-      { cbn [cassign_el] in Hx. unfold cassign_kw in Hx. destruct (alookup k fs) as [v|]; [destruct (is_default ct c k v); [destruct (is_unm t); [|destruct (val_eqb (eval ct t) v); [destruct (f_update F)|destruct (f_fix F)]]|]|destruct (f_fix F)];
+      { cbn [cassign_el] in Hx. unfold cassign_kw in Hx. destruct (alookup k fs) as [v|]; [destruct (is_default ct c k v); [destruct (has_unm t); [|destruct (val_eqb (eval ct t) v); [destruct (f_update F)|destruct (f_fix F)]]|]|destruct (f_fix F)];
           cbn in Hx; try tauto; destruct Hx as [<-|[]]; reflexivity. }
       subst x. apply Hni. apply in_map_iff in Hy. destruct Hy as [[k' w] [E Hy]]. cbn [fst] in E. subst k'. apply in_kwvals in Hy. destruct Hy as [r0 [Hy _]].
       apply in_flat_map in Hy. destruct Hy as [e [He Hy]]. apply in_map_iff in He. destruct He as [[k' t'] [<- He]].
       cbn [cassign_el] in Hy. unfold cassign_kw in Hy.
       assert (k' = k).
-      { destruct (alookup k' fs) as [v|]; [destruct (is_default ct c k' v); [destruct (is_unm t'); [|destruct (val_eqb (eval ct t') v); [destruct (f_update F)|destruct (f_fix F)]]|]|destruct (f_fix F)];
+      { destruct (alookup k' fs) as [v|]; [destruct (is_default ct c k' v); [destruct (has_unm t'); [|destruct (val_eqb (eval ct t') v); [destruct (f_update F)|destruct (f_fix F)]]|]|destruct (f_fix F)];
           cbn in Hy; try tauto; destruct Hy as [E|[]]; injection E as ->; reflexivity. }
       subst k'. apply in_map_iff. exists (k, t'). split; [reflexivity|exact He]. }
   assert (NB : NoDup (map fst (kwvals B))).
@@ -332,7 +346,7 @@ End Ev.
 Definition posvals : list (option Z * nres) -> list nval := posvals_gen (eval_r ct).
 Definition kwvals : list (option Z * nres) -> list (Z * nval) := kwvals_gen (eval_r ct).
 Lemma call_fix_eq : forall asg F c pos kws fs, ct_ok -> f_fix F = true -> NoDup (map fst kws) -> map fst fs = map fst (ct c) ->
-  (forall k t, In (k, t) kws -> is_unm t = false) ->
+  (forall k t, In (k, t) kws -> has_unm t = false) ->
   (forall k t v, In (k, t) kws -> In (k, v) fs -> val_eqb (eval_r ct (asg t v)) v = true) ->
   (forall k v, In (k, v) fs -> val_eqb v v = true) ->
   val_eqb (eval_r ct (QCall c (call_result ct asg F c pos kws fs))) (NObj c fs) = true.
@@ -368,7 +382,7 @@ Proof.
     apply Z.eqb_eq in Ec. subst c'. rewrite okt_call in Ho. apply andb_true_iff in Ho. destruct Ho as [Ho Ho3]. apply andb_true_iff in Ho. destruct Ho as [Ho1 Ho2].
     apply nodupb_NoDup in Ho2. rewrite okv_obj in Hn. apply andb_true_iff in Hn. destruct Hn as [Hn1 Hn2]. apply zlist_eqb_eq in Hn1.
     apply call_fix_eq; [exact Hct|exact HF|exact Ho2|exact Hn1| | |].
-    + intros k t Hkt. apply okt_not_unm. exact (okt_entries_in _ _ _ Ho3 Hkt).
+    + intros k t Hkt. apply okt_no_unm. exact (okt_entries_in _ _ _ Ho3 Hkt).
     + intros k t v Hkt Hkv. apply IH; [exact Hct|eapply depth_call_kw; [exact Hd|exact Hkt]|exact (okt_entries_in _ _ _ Ho3 Hkt)|exact (okv_entries_in _ _ _ Hn2 Hkv)|exact HF].
     + intros k v Hkv. apply okv_refl. exact (okv_entries_in _ _ _ Hn2 Hkv).
 Qed.
